@@ -5,7 +5,8 @@ import gc
 
 from sim import devices
 from sim.canon import Log
-from sim.catalogue import RECIPES, NAMES, public_view_constructors
+from sim.catalogue import RECIPES, NAMES, public_view_constructors, \
+    cut_after_conflicts
 from sim.core import outcome, quarantined, draw_config, not_a_harness_bug
 from sim.canon import enc_table
 from sim.gen import gen_table, gen_sorted_table
@@ -103,6 +104,9 @@ def gen_case(rng, tier, g):
             if n2 in quar:
                 continue
             stack.append([n2, rng.randrange(len(RECIPES[n2].variants))])
+    # (Conflict sets: their text form and their order among themselves
+    # depend on the interpreter's hash seed; nothing is built on them)
+    conflicts = cut_after_conflicts(stack)
     profile = rec.profile
     tables = []
     nf = rng.randint(3, 5) if (rec.rect or rng.random() < 0.6) else None
@@ -131,8 +135,8 @@ def gen_case(rng, tier, g):
     if name in ('sort-of-sort',):
         nviews = 2
     fork = None
-    if len(stack) == 1 and not rec.items and not rec.multi \
-            and name not in quar and name not in ('sort-of-sort',) \
+    if len(stack) == 1 and not conflicts and not rec.items \
+            and not rec.multi and name not in quar and name not in ('sort-of-sort',) \
             and rng.random() < 0.15:
         # sibling views over one (possibly stateful) base view: iterators
         # over the base and over both derived views are interleaved
